@@ -33,18 +33,44 @@ type Instance struct {
 	runOK   bool
 }
 
+// Options of StartWith.
+type Options struct {
+	// DebugLog runs the instance with a debug-level logger: besides the observer (which keeps
+	// info and above, for the listener addresses and the log tail) every entry of every level is
+	// encoded as JSON, with all its fields, and written to io.Discard - so the debug statements
+	// of the code under test execute with their real field values.
+	DebugLog bool
+}
+
+// NewLogger returns the logger the harness gives to code under test, and the observer behind it.
+func NewLogger(debug bool) (*zap.Logger, *observer.ObservedLogs) {
+	core, logs := observer.New(zapcore.InfoLevel)
+	if debug {
+		enc := zapcore.NewJSONEncoder(zapcore.EncoderConfig{
+			MessageKey: "msg", LevelKey: "level", TimeKey: "ts", NameKey: "logger",
+			EncodeLevel: zapcore.LowercaseLevelEncoder, EncodeTime: zapcore.ISO8601TimeEncoder, EncodeDuration: zapcore.StringDurationEncoder,
+		})
+		core = zapcore.NewTee(core, zapcore.NewCore(enc, zapcore.AddSync(io.Discard), zapcore.DebugLevel))
+	}
+	return zap.New(core), logs
+}
+
 // Start decodes cfgJSON exactly as the binary does (unknown fields are errors), builds the
 // manager, runs it and waits until nTCP relay listeners (and the API listener if wantAPI)
 // have reported their addresses.
 func Start(cfgJSON []byte, nTCP int, wantAPI bool) (*Instance, error) {
+	return StartWith(cfgJSON, nTCP, wantAPI, Options{})
+}
+
+// StartWith is Start with options.
+func StartWith(cfgJSON []byte, nTCP int, wantAPI bool, opt Options) (*Instance, error) {
 	var sc service.Config
 	dec := json.NewDecoder(bytes.NewReader(cfgJSON))
 	dec.DisallowUnknownFields()
 	if err := dec.Decode(&sc); err != nil {
 		return nil, fmt.Errorf("decode config: %w", err)
 	}
-	core, logs := observer.New(zapcore.InfoLevel)
-	logger := zap.New(core)
+	logger, logs := NewLogger(opt.DebugLog)
 	m, err := sc.Manager(logger)
 	if err != nil {
 		return nil, fmt.Errorf("Manager: %w", err)
